@@ -436,7 +436,7 @@ func elgamalHom(c *curveCtx[*k256.Point, *k256.Scalar], k *elgamalKey, flavour s
 func runHomomorphic() {
 	depth := 3
 	if engine.Thorough() {
-		depth = 4
+		depth = 5
 	}
 	var jobs []func()
 	kc, bc := k256Ctx(), blsG1Ctx()
